@@ -169,6 +169,9 @@ pub fn selection(r: &mut Prng, n: usize, t: usize, variant: u64) -> Vec<usize> {
 }
 
 pub fn gen_c01(seed: u64, thorough: bool, only: Option<u64>, out: &mut Out) {
+  if only.is_none() {
+    gen_reuse(seed, thorough, out);
+  }
   let groups: u64 = if thorough { 400 } else { 36 };
   let ts: &[u32] = if thorough { &[1, 2, 3, 4, 5, 8, 16, 33, 64] } else { &[1, 2, 3, 5, 8] };
   for gi in 0..groups {
@@ -208,6 +211,65 @@ pub fn gen_c01(seed: u64, thorough: bool, only: Option<u64>, out: &mut Out) {
       }
     }
     out.case(scn_case(&g, &sel), format!("wire={} {}", g.wire.iter().map(|b| hex(b)).collect::<Vec<_>>().join(","), obs), v);
+  }
+}
+
+/// One MessageGenerator used for several submissions: locally derived randomness, then randomness handed in from
+/// outside, then - after its public measurement field was reassigned - locally derived randomness again.  Nothing
+/// may be remembered between the calls: each batch must be what a fresh generator for that measurement produces.
+pub fn gen_reuse(seed: u64, thorough: bool, out: &mut Out) {
+  for gi in 0..(if thorough { 40u64 } else { 6 }) {
+    let mut r = Prng::for_case(seed, "reuse", gi);
+    let t = 2 + r.below(2) as u32;
+    let e = { let l_ = r.below(3) as usize; r.bytes(l_) };
+    let m1 = { let l_ = 1 + r.below(9) as usize; r.bytes(l_) };
+    let m2 = { let l_ = 1 + r.below(9) as usize; r.bytes(l_) };
+    let mut mg = MessageGenerator::new(SingleMeasurement::new(&m1), t, &e);
+    for phase in 0..3 {
+      let (m, local) = match phase { 0 => (m1.clone(), true), 1 => (m1.clone(), false), _ => (m2.clone(), true) };
+      if phase == 2 {
+        mg.x = SingleMeasurement::new(&m2);
+      }
+      let mut rnd = [0u8; 32];
+      if local {
+        mg.sample_local_randomness(&mut rnd);
+      } else {
+        rnd.copy_from_slice(&r.bytes(32));
+      }
+      let auxs: Vec<Option<Vec<u8>>> = (0..t as usize).map(|i| Some(vec![phase as u8, i as u8, 7])).collect();
+      let mut wire = vec![];
+      let mut xs = vec![];
+      for a in &auxs {
+        let msg = match Message::generate(&mg, &rnd, a.as_ref().map(|x| AssociatedData::new(x))) { Ok(m) => m, Err(_) => break };
+        let b = msg.to_bytes();
+        if let Some((_, sb, _)) = split_message(&b) {
+          xs.push(share_x(&sb).unwrap_or_default());
+          wire.push(b);
+        }
+      }
+      if wire.len() != t as usize {
+        continue;
+      }
+      let g = Group { m: m.clone(), e: e.clone(), t, rnd: rnd.to_vec(), local, aux: auxs, wire, xs };
+      let sel: Vec<usize> = (0..t as usize).collect();
+      let (obs, m0, pays) = server_side(&g.e, &g.wire, &sel);
+      let mut v = Ok(());
+      if local {
+        let fresh = MessageGenerator::new(SingleMeasurement::new(&m), t, &e);
+        let mut want = [0u8; 32];
+        fresh.sample_local_randomness(&mut want);
+        if want != rnd {
+          v = Err(format!("use {} of one generator: its local randomness for measurement {} differs from a fresh generator's", phase, hex(&m)));
+        }
+      }
+      let r3 = derive3(&g.rnd);
+      if m0.as_deref() != Some(&r3[0][..]) {
+        v = Err(format!("use {} of one generator: the reports do not recover the value shared under the randomness handed in", phase));
+      } else if pays.iter().enumerate().any(|(i, p)| *p != Some((g.m.clone(), g.aux[i].clone()))) {
+        v = Err(format!("use {} of one generator: a report does not open to the measurement and associated data supplied", phase));
+      }
+      out.case(scn_case(&g, &sel), format!("wire={} {}", g.wire.iter().map(|b| hex(b)).collect::<Vec<_>>().join(","), obs), v);
+    }
   }
 }
 
@@ -321,6 +383,8 @@ pub fn gen_c02(seed: u64, thorough: bool, only: Option<u64>, out: &mut Out) {
     let m = r.bytes(ml);
     let el = 1 + r.below(4) as usize;
     let e = r.bytes(el);
+    // every fourth group: an epoch that is not valid UTF-8; its foreign epoch differs only in the invalid byte
+    let e = if gi % 4 == 3 { let mut x = vec![0xffu8]; x.extend(&e); x } else { e };
     let auxs: Vec<Option<Vec<u8>>> = (0..n).map(|i| if i % 2 == 0 { None } else { Some(r.bytes(12)) }).collect();
     let g = match make_group(&mut r, m.clone(), e.clone(), t, true, auxs) {
       Some(g) => g,
@@ -379,9 +443,14 @@ pub fn gen_c02(seed: u64, thorough: bool, only: Option<u64>, out: &mut Out) {
     }
     // foreign material: another measurement, another epoch, another threshold
     let mut other = vec![];
-    for (m2, e2, t2) in [(r.bytes(9), e.clone(), t), (m.clone(), r.bytes(3), t), (m.clone(), e.clone(), t + 1)] {
+    let e_near = { let mut x = e.clone(); x[0] = if x[0] == 0xfe { 0xfd } else { 0xfe }; x };
+    let mut near: Vec<Vec<u8>> = vec![];
+    for (k2, (m2, e2, t2)) in [(r.bytes(9), e.clone(), t), (m.clone(), r.bytes(3), t), (m.clone(), e.clone(), t + 1), (m.clone(), e_near, t)].into_iter().enumerate() {
       if let Some(g2) = make_group(&mut r, m2, e2, t2, true, vec![None; (t as usize).max(2) - 1]) {
         other.extend(g2.wire.iter().map(|w| split_message(w).unwrap().1));
+        if k2 == 3 {
+          near = g2.wire.iter().map(|w| split_message(w).unwrap().1).collect();
+        }
       }
     }
     let mut emit = |col: Vec<Vec<u8>>, what: &str, out: &mut Out| {
@@ -412,6 +481,22 @@ pub fn gen_c02(seed: u64, thorough: bool, only: Option<u64>, out: &mut Out) {
       }
       emit(col, "sub-threshold set padded with repeats", out);
     }
+    // (c') the same at the Shamir layer, which has no tag to fall back on: t-1 distinct shares with repeats that are
+    // NOT adjacent to their first occurrence must be refused by the share counting itself
+    if tt >= 3 {
+      let parts: Vec<Vec<u8>> = shares.iter().take(tt - 1).filter_map(|s| split_share(s).map(|f| f.s)).collect();
+      if parts.len() == tt - 1 {
+        let mut col = parts.clone();
+        col.push(parts[0].clone());
+        col.push(parts[1].clone());
+        let dec: Option<Vec<star_sharks::Share>> = col.iter().map(|b| star_sharks::Share::try_from(b.as_slice()).ok()).collect();
+        if let Some(d) = dec {
+          let obs = crate::g_sharks::recover_obs(t, &d);
+          let v = if obs == "err" { Ok(()) } else { Err(format!("Shamir recovery from {} distinct shares of threshold {} padded with non-adjacent repeats did not fail: {}", tt - 1, t, &obs[..obs.len().min(30)])) };
+          out.case(format!("sharks.recover {} {}", t, col.iter().map(|b| hex(b)).collect::<Vec<_>>().join(" ")), obs, v);
+        }
+      }
+    }
     // (b) forged thresholds on a sub-threshold set
     for k in 1..tt.min(5) {
       let forged: Vec<u32> = (0..=k as u32).chain([t + 1, u32::MAX]).collect();
@@ -426,6 +511,12 @@ pub fn gen_c02(seed: u64, thorough: bool, only: Option<u64>, out: &mut Out) {
           emit(col, "threshold field rewritten on a sub-threshold set", out);
         }
       }
+    }
+    // (c'') t-1 own shares completed only by shares of the same measurement under an epoch that differs in one byte
+    if !near.is_empty() {
+      let mut col: Vec<Vec<u8>> = shares[..tt - 1].to_vec();
+      col.extend(near.iter().cloned());
+      emit(col, "t-1 shares completed by shares of the same measurement under a neighbouring epoch", out);
     }
     // (c) sub-threshold set padded with foreign shares, in every position relative to the own ones
     if !other.is_empty() {
@@ -452,7 +543,7 @@ pub fn gen_c03(seed: u64, thorough: bool, only: Option<u64>, out: &mut Out) {
     }
     let mut r = Prng::for_case(seed, "C03", gi);
     let t = *r.pick(&[2u32, 3, 5]);
-    let ml = *r.pick(&[1usize, 5, 16, 40, 170]);
+    let ml = if gi % 6 == 5 { 0 } else { *r.pick(&[1usize, 5, 16, 40, 170]) };
     let m = r.bytes(ml);
     let e = { let l_ = 1 + r.below(3) as usize; r.bytes(l_) };
     let la = if gi == 0 { 216 } else { *r.pick(&[1usize, 2, 8, 16, 60, 150, 163, 170, 200, 216, 333, 500, 1000]) };
@@ -519,6 +610,18 @@ pub fn gen_c03(seed: u64, thorough: bool, only: Option<u64>, out: &mut Out) {
         }
       }
     }
+    // no stretch of the payload goes out unencrypted: ciphertext and payload never agree on 4 consecutive positions
+    for i in 0..n {
+      let len = cts[i].len().min(pts[i].len());
+      let mut run = 0usize;
+      for k in 0..len {
+        if cts[i][k] == pts[i][k] { run += 1 } else { run = 0 }
+        if run >= 4 {
+          v = Err(format!("report {}: ciphertext bytes {}..{} equal the payload bytes (measurement of {} bytes, associated data of {} bytes)", i, k + 1 - run, k + 1, m.len(), la));
+          break;
+        }
+      }
+    }
     // associated data never in the clear; no window of the report decrypts the payload
     for (i, w) in g.wire.iter().enumerate() {
       let a = auxs[i].as_ref().unwrap();
@@ -526,6 +629,24 @@ pub fn gen_c03(seed: u64, thorough: bool, only: Option<u64>, out: &mut Out) {
         let tail = &a[a.len() - 8..];
         if contains(w, &a[..8.min(a.len())]) || contains(w, tail) || (a.len() >= 24 && contains(w, &a[a.len() / 2..a.len() / 2 + 8])) {
           v = Err("associated data occurs in the clear in the encoded report".into());
+        }
+      }
+      // ... nor does a simple combination of the report's own share fields and tag give the key seed
+      if i == 0 {
+        if let (Some(msg), Some((_, sb, tag))) = (Message::from_bytes(w), split_message(w)) {
+          if let Some(f) = split_share(&sb) {
+            if f.c.len() == 32 && f.d.len() == 32 && tag.len() == 32 {
+              let x = |a: &[u8], b: &[u8]| -> Vec<u8> { a.iter().zip(b).map(|(p, q)| p ^ q).collect() };
+              let cands: Vec<(&str, Vec<u8>)> = vec![("C", f.c.clone()), ("D", f.d.clone()), ("tag", tag.clone()), ("C^D", x(&f.c, &f.d)), ("C^tag", x(&f.c, &tag)), ("D^tag", x(&f.d, &tag)), ("C^D^tag", x(&x(&f.c, &f.d), &tag))];
+              for (name, cand) in cands {
+                let k = ske_key(&cand, &e);
+                let p = msg.ciphertext.decrypt(&k, "star_encrypt");
+                if strict_payload(&p).map_or(false, |(mm, _)| mm == m) {
+                  v = Err(format!("the report opens with the key derived from {} of its own fields", name));
+                }
+              }
+            }
+          }
         }
       }
       if gi % 5 == 0 && i == 0 {
@@ -624,6 +745,7 @@ fn derive_obs(m: &[u8], e: &[u8], t: u32) -> (String, Vec<u8>, Vec<u8>, Vec<u8>)
 }
 
 pub fn gen_c04(seed: u64, thorough: bool, _only: Option<u64>, out: &mut Out) {
+  gen_reuse(seed ^ 0x4, thorough, out);
   let mut r = Prng::for_case(seed, "C04", 0);
   // families of triples that must all be told apart
   let mut families: Vec<Vec<(Vec<u8>, Vec<u8>, u32)>> = vec![];
